@@ -22,4 +22,16 @@ META = {
         "note": "Crash = process death at hook sites; torn write = truncation. Concurrent visibility is decided per recorded execution with perturbation, not over all schedules. A commit failure can only be provoked through inputs (no I/O fault injection). Trusted: models, hook placement.",
         "technique": "crash/torn-write fault enumeration with prefix-state oracle; concurrent tag-monotonicity invariant; buffer-reuse model test (rapid)",
     },
+    "C05": {
+        "text": "Search-based: a generated program builds a layer arrangement on the real engine (several immutable memtables, several SSTables, versions of a key in many layers, tombstones over older values, reopen, and 'retire' = flush everything and drop the flushed logs so reads come from SSTables only); then 20-60 generated queries (full scan, [start,end) ranges with bounds present/absent/between/equal/inverted/nil, Seek+Next, SeekToLast, BoundedIterator and prefix/suffix FilteredIterator compositions as the service builds them, inside read-write transactions with an uncommitted overlay and read-only transactions) are compared exactly with the sorted live keys of a map model; a concurrent phase checks scans next to writers of other keys (strictly ascending, duplicate-free, every stable key present).",
+        "design_ref": "DESIGN.md section 5, C05",
+        "note": "Iterators are consumed the way KevoService.Scan consumes them (tombstones skipped by the consumer). Non-nil empty bounds are not generated. Build phase single-client with quiesced background flush; concurrent phase samples schedules. Trusted: the map model and query interpreter.",
+        "technique": "model-based property testing: generated layer arrangements x generated queries vs. sorted-model oracle (rapid)",
+    },
+    "C11": {
+        "text": "Round trip by search: strictly ascending entry lists (1-3000 entries, 1-30+ blocks, hundreds of restart intervals, long shared prefixes, keys that are prefixes of each other, values/empty values/deletion markers at first, last and block-edge positions, arbitrary 64-bit sequence numbers) are written with the public writer; forward iteration must yield the list exactly, Seek(t) for every key and gap must land on the first entry >= t (or be invalid) and Next must yield the exact suffix, SeekToLast the last entry, Get every written key and no gap key. Separately one byte of the finished file is altered (data, bloom, index, footer regions; all positions of small files in the thorough tier): open/iterate/seek/get must fail or show only written tuples, no panic, no process crash (each fault runs first in a child process).",
+        "design_ref": "DESIGN.md section 5, C11",
+        "note": "Trusted: the harness's row model and sort.Search. Corruption = exactly one byte XORed; truncation/multi-byte damage not covered. A non-terminating read of an altered file is counted, not judged. Native go fuzzing is not wired in.",
+        "technique": "round-trip model check, exhaustive/sampled seek oracle, single-byte fault injection with child-process crash guard (rapid)",
+    },
 }
